@@ -277,3 +277,75 @@ Fixpoint ctl (rc : bool) (k : nat) (ms : list cmode) (called removed : bool) {st
         else let r := ctl rc (S k) ms' true removed2 in ((o1 ++ o2 ++ [Call k; DefaultCollate]) ++ fst r, snd r)
       else let r := ctl rc (S k) ms' called1 removed2 in ((o1 ++ o2 ++ [Call k]) ++ fst r, snd r)
   end.
+
+(* ---------------------------------------------------------------------- *)
+(* Entry points as OBJECTS built around SHARED member objects.
+   A member collator object carries the attributes dataset_mode / return_ctx it was constructed with
+   (None, None unless it is meant to be called standalone) next to its behaviour.  An entry point
+   (KDComposeCollator / KDSingleCollatorWrapper) stores ITS OWN dataset_mode / return_ctx and REFERENCES to
+   the member objects; its __call__ hands its own configuration to _call_impl.  A KDSingleCollator called
+   standalone reads its own attributes.  A dataset mode is represented by a number (its identity is all that
+   matters here); what a call hands to the members as `dataset_mode` is part of its outcome. *)
+Record cfg := { c_mode : nat; c_rc : bool }.
+Record mobj := { mo_cfg : option cfg; mo_impl : member }.
+Definition heap := list mobj.
+Inductive ekind := EKCompose | EKWrapper | EKSingle.
+Record epoint := { ep_kind : ekind; ep_cfg : cfg; ep_ids : list nat }.
+
+Definition dummy_member : member := {| mmode := MNone; mcollate := fun _ _ => None |}.
+Definition impl_at (h : heap) (i : nat) : member :=
+  match nth_error h i with Some o => mo_impl o | None => dummy_member end.
+Definition cfg_at (h : heap) (i : nat) : option cfg :=
+  match nth_error h i with Some o => mo_cfg o | None => None end.
+Fixpoint set_cfg (i : nat) (c : option cfg) (h : heap) : heap :=
+  match h, i with
+  | [], _ => []
+  | o :: r, O => {| mo_cfg := c; mo_impl := mo_impl o |} :: r
+  | o :: r, S i' => o :: set_cfg i' c r
+  end.
+
+(* outcome of a call: the dataset_mode handed to the members, the operations, the result *)
+Definition call_out := (nat * (list op * result))%type.
+Definition run_cfg (c : cfg) (ms : list member) (b : batch) : call_out := (c_mode c, call_impl (c_rc c) ms b).
+Definition fail_out : call_out := (0%nat, ([], Fail EAssert)).
+
+(* [wr] = false: the code that exists.  [wr] = true, for contrast only: a wrapper whose constructor writes its
+   configuration INTO the member (`collator.dataset_mode = ...`) and whose __call__ delegates to the member *)
+Definition ep_of (k : ekind) (c : cfg) (ids : list nat) : epoint := {| ep_kind := k; ep_cfg := c; ep_ids := ids |}.
+Definition ep_build_gen (wr : bool) (h : heap) (k : ekind) (c : cfg) (ids : list nat) : heap * epoint :=
+  match k, ids with
+  | EKWrapper, [i] => ((if wr then set_cfg i (Some c) h else h), ep_of k c ids)
+  | _, _ => (h, ep_of k c ids)
+  end.
+Definition ep_call_gen (wr : bool) (h : heap) (e : epoint) (b : batch) : call_out :=
+  match ep_kind e, ep_ids e with
+  | EKCompose, _ :: _ => run_cfg (ep_cfg e) (map (impl_at h) (ep_ids e)) b
+  | EKWrapper, [i] => if wr then match cfg_at h i with Some c => run_cfg c [impl_at h i] b | None => fail_out end
+                      else run_cfg (ep_cfg e) [impl_at h i] b
+  | EKSingle, [i] => match cfg_at h i with Some c => run_cfg c [impl_at h i] b | None => fail_out end
+  | _, _ => fail_out
+  end.
+
+(* a construction / call history on one heap of member objects *)
+Inductive hop := HBuild (k : ekind) (c : cfg) (ids : list nat) | HCall (e : nat) (b : batch).
+Fixpoint run_hist_gen (wr : bool) (h : heap) (eps : list epoint) (ops : list hop) : heap * list call_out :=
+  match ops with
+  | [] => (h, [])
+  | HBuild k c ids :: r =>
+      let '(h', e) := ep_build_gen wr h k c ids in run_hist_gen wr h' (eps ++ [e]) r
+  | HCall j b :: r =>
+      let o := match nth_error eps j with Some e => ep_call_gen wr h e b | None => fail_out end in
+      let '(h', outs) := run_hist_gen wr h eps r in (h', o :: outs)
+  end.
+Definition ep_call := ep_call_gen false.
+Definition run_hist := run_hist_gen false.
+
+(* the same calls, each answered by a FRESH configuration: the entry point as its own constructor arguments
+   describe it, over the member objects as they were before the history began *)
+Fixpoint calls_fresh (h0 : heap) (eps : list epoint) (ops : list hop) : list call_out :=
+  match ops with
+  | [] => []
+  | HBuild k c ids :: r => calls_fresh h0 (eps ++ [ep_of k c ids]) r
+  | HCall j b :: r =>
+      (match nth_error eps j with Some e => ep_call h0 e b | None => fail_out end) :: calls_fresh h0 eps r
+  end.
